@@ -228,6 +228,12 @@ def execute(world: World, op, step_no, oracle=None, budget=clock.DEFAULT_BUDGET,
     dst = op.get('d')
     if ctx.ip:
         ctx.entitled.add(ctx.recv_slot)
+    if k == 'bad' and ctx.exc is None and ctx.recv_slot is not None and isinstance(recv, AnsiString):
+        from . import badops as _bo
+        if op.get('what') in _bo.ALWAYS_IN_PLACE or (op.get('what') in _bo.MAY_MUTATE and op.get('ip')):
+            # the call was accepted after all ("either succeeds or raises"): it ran in its in-place form
+            ctx.entitled.add(ctx.recv_slot)
+            ctx.bad_succeeded_in_place = True
     if ctx.exc is None and not ctx.timeout and dst is not None and not ctx.ip:
         dst %= n
         val = ctx.result
